@@ -199,10 +199,19 @@ package arvados
 //@   loop 2: invariant 0 <= segIdx && segIdx <= len(segments) && pos == stsum(row(segments), rowoff(segments), segIdx) && (!anyFileTokens ==> pos == 0 && segIdx == 0)
 //@   loop 2: invariant forall j int :: 0 <= j && j < len(segments) ==> segments[j].offset == 0 && segments[j].length == segments[j].size && segments[j].size >= 0
 //@   loop 3: invariant 0 <= segIdx && segIdx <= len(segments) && pos == stsum(row(segments), rowoff(segments), segIdx) && anyFileTokens && offset >= 0 && length >= 0
+//@   loop 3: invariant offset <= cov && cov <= offset + length && (cov > offset ==> cov == pos) && (cov == offset ==> pos <= offset || length == 0)
 //@   loop 3: invariant forall j int :: 0 <= j && j < len(segments) ==> segments[j].offset == 0 && segments[j].length == segments[j].size && segments[j].size >= 0
 //@   calls filenode.appendSegment#1: requires istype($0, storedSegment) && unbox($0, storedSegment).length > 0 && unbox($0, storedSegment).offset >= 0 && unbox($0, storedSegment).offset + unbox($0, storedSegment).length <= unbox($0, storedSegment).size
 //@   calls filenode.appendSegment#1: requires pos + int64(unbox($0, storedSegment).offset) == max(offset, pos) && pos + int64(unbox($0, storedSegment).offset) + int64(unbox($0, storedSegment).length) == min(offset + length, next)
 //@   calls filenode.appendSegment#1: requires unbox($0, storedSegment).locator == seg.locator && unbox($0, storedSegment).size == seg.size && next == pos + int64(seg.length)
+//@   # completeness: the segments appended for one file token cover its stream
+//@   # range [offset, offset+length) without gaps, starting exactly at offset
+//@   # (cov = end of what has been covered so far)
+//@   ghost cov int64 = 0
+//@   at assign fnode#1: set cov = offset
+//@   calls filenode.appendSegment#1: requires pos + int64(unbox($0, storedSegment).offset) == cov
+//@   calls filenode.appendSegment#1: set cov = pos + int64(unbox($0, storedSegment).offset) + int64(unbox($0, storedSegment).length)
+//@   at loop 3 exit: assert cov == offset + length || (segIdx == len(segments) && pos < offset + length)
 
 // ---------------------- C09: a buffered segment is replaced only after its
 // block was stored, and only if it is still the same unmodified segment
@@ -240,7 +249,7 @@ package arvados
 // succeeded, with the locator PutB returned, the block size, the segment's
 // offset in the block and its length; the throttle slot is released on every
 // path; in async mode only after re-validating under the file lock.
-//@ func dirnode.commitBlock$1 property C09 safety -bounds
+//@ func dirnode.commitBlock$1 property C08,C09 safety -bounds
 //@   ghost perr error = nil
 //@   ghost loc string = ""
 //@   ghost released bool = false
